@@ -28,6 +28,7 @@ VARIABLES obj, lastSig, lastOutcome
 
 wvars == <<obj, lastSig, lastOutcome>>
 
+Setup == SetupOf(0)
 Dead == [idx |-> -1]
 Alive(o) == obj[o] # Dead
 Kinds == {"seed+params", "extendedSeed", "mnemonic"}
